@@ -95,6 +95,9 @@ func (c *chooser) loadStep(K int) string {
 		return text + fmt.Sprintf(":%d:1", r.Intn(3)) // unhealthy_latency configured
 	}
 	if r.Chance(1, 8) {
+		return text + fmt.Sprintf(":%d:2", r.Intn(3)) // active health checks run in the background
+	}
+	if r.Chance(1, 8) {
 		text += fmt.Sprintf(":%d", 1+r.Intn(3)) // the first upstream has its own max_requests
 	}
 	return text
